@@ -189,7 +189,7 @@ def walks(rows, seed, n_walks, steps):
             cands = []
             for i, kv in enumerate(cur):
                 s, v = kv.split("=", 1)
-                if s.split(".")[1] in ("konst", "cptr", "rdonly", "quiet"):
+                if s.split(".")[1] in ("konst", "cptr", "rdonly", "quiet", "fin", "finq"):
                     continue
                 for v2 in doms[s]:
                     if v2 != v:
@@ -248,6 +248,7 @@ NEG = [
     ("read without NOTIFY through a pointer chain", "ival: a.ptr != null ? a.ptr.quiet : 0"),
     ("read without NOTIFY inside a switch body", "ival: { switch (a.ival) { case 0: return a.quiet; } return 1 }"),
     ("read without NOTIFY under &&", "flag: a.flag && a.quiet > 0"),
+    ("read of a FINAL read-only property without NOTIFY", "ival: a.finq"), ("FINAL read-only without NOTIFY through a chain", "ival: a.ptr != null ? a.ptr.finq : 0"),
     ("read without NOTIFY after a switch left by break", "ival: { switch (a.ival) { case 0: break; default: break; } return a.quiet }"),
     ("read without NOTIFY via chain local in else arm", "ival: { if (a.flag) { return 1 } else { let q = a.ptr; if (q != null) { return q.quiet } } return 0 }"),
 ]
@@ -256,6 +257,7 @@ POS = [
     ("read through a CONSTANT pointer", "ival: a.cptr != null ? a.cptr.ival : 0"),
     ("read of a read-only property with NOTIFY", "ival: a.rdonly"),
     ("CONSTANT property only", "ival: a.konst"),
+    ("read of a FINAL read-only property with NOTIFY", "ival: a.fin + b.fin"),
 ]
 
 
@@ -296,6 +298,12 @@ def run(chk):
             continue
         irs = [ir for ir in run_["ir"] if ir["obj"] == "t0" and ir["kind"] == "binding" and not ir["const"]]
         if len(irs) != 1:
+            # an accepted binding whose value depends on the state (the oracle gives different values in different states) but which the translator
+            # took for a constant: it is embedded once and never updated
+            vals = {r["v"] for r in rows if r["ok"] and r["det"]}
+            if len(vals) > 1 and any(ir["obj"] == "t0" and ir["kind"] == "binding" and ir["const"] for ir in run_["ir"]):
+                chk.violation("binding `%s` takes %d different values over the states of the objects it reads but is embedded as a constant (no update code)" % (
+                    lang.r_body(p["body"])[:200], len(vals)), {"program": p, "qml": srcs[p["id"]], "ui": run_.get("ui"), "header": run_.get("header")})
             continue
         acc.append(p)
         try:
